@@ -325,13 +325,18 @@ def oracle_compile(text):
 
 @st.composite
 def broken_query(draw):
-    """A grammar-generated query with one grouping symbol removed or one added."""
+    """A grammar-generated query with one grouping symbol removed, replaced by another kind, or one added."""
     q = draw(query(3))
     idx = [i for i, ch in enumerate(q) if ch in "()[]{}"]
-    mode = draw(st.integers(0, 2))
+    mode = draw(st.integers(0, 3))
     if idx and mode == 0:
         i = idx[draw(st.integers(0, len(idx) - 1))]
         return q[:i] + q[i + 1:]
+    if idx and mode == 1:
+        # one grouping symbol replaced by another kind (a closer of the wrong kind, an opener of the wrong kind, ...)
+        i = idx[draw(st.integers(0, len(idx) - 1))]
+        other = draw(st.sampled_from([c for c in "()[]{}" if c != q[i]]))
+        return q[:i] + other + q[i + 1:]
     pos = draw(st.integers(0, len(q)))
     while 0 < pos < len(q) and q[pos - 1] not in " ()[]{}:" and q[pos] not in " ()[]{}:":
         pos += 1            # never split a term
